@@ -66,6 +66,7 @@ var Mutants = map[string][]Mutant{
 		{"Paths.Settle ignores its rule", "path_intersection.go", `return bentleyOttmann\(ps, nil, opSettle, fillRule\)`, `return bentleyOttmann(ps, nil, opSettle, NonZero)`, "E9.wrapper"},
 	},
 	"C03": {
+		{"position of the rest not clamped after the join (reverts fix ff037ad)", "path.go", `(?s)(\t\t\tp = p\.Join\(r\) // join the rest of the base path\n)\t\t\tif len\(p\.d\) < i \{\n[^\n]*\n\t\t\t\ti = len\(p\.d\)\n\t\t\t\}\n`, "$1", "E11.cursor-revalidated-after-join"},
 		{"circular arcs collapse to the chord when its sagitta is within tolerance", "path_util.go", `(?s)(func flattenEllipticArc\(.*?\t\tr := rx\n)`, "${1}\t\tif chord := end.Sub(start).Length(); r-math.Sqrt(math.Max(0.0, r*r-chord*chord/4.0)) <= tolerance {\n\t\t\tq := &Path{}\n\t\t\tq.MoveTo(start.X, start.Y)\n\t\t\tq.LineTo(end.X, end.Y)\n\t\t\treturn q\n\t\t}\n", "E11.arc-flag-consulted"},
 		{"non-circular arcs flattened with the package default tolerance", "path_util.go", `arcToCube\(start, rx, ry, phi, large, sweep, end\)\.Flatten\(tolerance\)`, "arcToCube(start, rx, ry, phi, large, sweep, end).Flatten(Tolerance)", "E11.tolerance-threaded"},
 		{"control-point factor of the maximal piece angle", "path_util.go", `(?s)(func ellipseToCubicBeziers\(.*?\tdtheta := math\.Pi / 2\.0 // TODO[^\n]*\n\tn := int\(math\.Ceil\(math\.Abs\(theta1-theta0\) / dtheta\)\)\n)(\tdtheta = math\.Abs\(theta1-theta0\) / float64\(n\)[^\n]*\n)(\tkappa := [^\n]*\n)`, "${1}${3}${2}", "E11.factor-from-step"},
@@ -75,13 +76,14 @@ var Mutants = map[string][]Mutant{
 		{"arc flattener loses its tolerance clamp", "path_util.go", `\ttolerance = math\.Max\(tolerance, Epsilon\) // a zero tolerance gives an infinite number of segments\n`, "", "E4.step-progress"},
 		{"quadratic flattener loses its tolerance clamp", "path_util.go", `(2005,  https://www\.sciencedirect\.com/science/article/pii/S0097849305001287\n)\ttolerance = math\.Max\(tolerance, Epsilon\)[^\n]*\n(\tt := 0\.0\n\tp := &Path\{\}\n\tp\.MoveTo\(p0\.X, p0\.Y\)\n\tfor t < 1\.0 \{\n\t\tD := p1\.Sub\(p0\))`, "${1}${2}", "E4.step-progress"},
 		{"cubic stroker loses its tolerance clamp", "path_util.go", `\ttolerance = math\.Max\(tolerance, Epsilon\) // prevent infinite loop if user sets tolerance to zero\n\n`, "\n", "E4.step-progress"},
-		{"replace keeps the pen from before the rest is joined back", "path.go", `\t\t\ti = len\(p\.d\)\n\t\t\tp = p\.Join\(r\) // join the rest of the base path\n\t\t\} else \{\n\t\t\ti \+= cmdLen\(cmd\)\n\t\t\}\n\t\tstart = Point\{p\.d\[i-3\], p\.d\[i-2\]\}\n`, "\t\t\ti = len(p.d)\n\t\t\tstart = end\n\t\t\tp = p.Join(r) // join the rest of the base path\n\t\t} else {\n\t\t\ti += cmdLen(cmd)\n\t\t\tstart = Point{p.d[i-3], p.d[i-2]}\n\t\t}\n", "E2.pen-reread"},
+		{"replace keeps the pen from before the rest is joined back", "path.go", `(?s)\t\t\ti = len\(p\.d\)\n\t\t\tp = p\.Join\(r\) // join the rest of the base path\n(\t\t\tif len\(p\.d\) < i \{\n[^\n]*\n\t\t\t\ti = len\(p\.d\)\n\t\t\t\}\n)\t\t\} else \{\n\t\t\ti \+= cmdLen\(cmd\)\n\t\t\}\n\t\tstart = Point\{p\.d\[i-3\], p\.d\[i-2\]\}\n`, "\t\t\ti = len(p.d)\n\t\t\tstart = end\n\t\t\tp = p.Join(r) // join the rest of the base path\n${1}\t\t} else {\n\t\t\ti += cmdLen(cmd)\n\t\t\tstart = Point{p.d[i-3], p.d[i-2]}\n\t\t}\n", "E2.pen-reread"},
 		{"quadratic flattener emits QuadTo", "path_util.go", `_, _, _, p0, p1, p2 = quadraticBezierSplit\(p0, p1, p2, t\)\n\t\tp\.LineTo\(p0\.X, p0\.Y\)`, "_, _, _, p0, p1, p2 = quadraticBezierSplit(p0, p1, p2, t)\n\t\tp.QuadTo(p1.X, p1.Y, p0.X, p0.Y)", "E10.command-set"},
-		{"replace does not restart at the remainder", "path.go", `\t\t\ti = len\(p\.d\)\n`, ``, "E10.replace-shape"},
+		{"replace does not restart at the remainder", "path.go", `\t\t\ti = len\(p\.d\)\n(\t\t\tp = p\.Join\(r\))`, "$1", "E10.replace-shape"},
 		{"sweep input qs not flattened", "path_intersection.go", `\t\tfor i := range qs \{\n\t\t\tqs\[i\] = qs\[i\]\.Flatten\(Tolerance\)\n\t\t\}\n`, ``, "E10.consumer"},
 		{"ToPDF forgets ReplaceArcs", "path.go", `\tp = p\.ReplaceArcs\(\)\n\n\tsb := strings\.Builder\{\}\n\tvar x, y float64\n\tfor i := 0; i < len\(p\.d\); \{\n\t\tcmd := p\.d\[i\]\n\t\tswitch cmd \{\n\t\tcase MoveToCmd:\n\t\t\tx, y = p\.d\[i\+1\], p\.d\[i\+2\]\n\t\t\tfmt\.Fprintf\(&sb, " %v %v m"`, "\tsb := strings.Builder{}\n\tvar x, y float64\n\tfor i := 0; i < len(p.d); {\n\t\tcmd := p.d[i]\n\t\tswitch cmd {\n\t\tcase MoveToCmd:\n\t\t\tx, y = p.d[i+1], p.d[i+2]\n\t\t\tfmt.Fprintf(&sb, \" %v %v m\"", "E10.consumer"},
 	},
 	"C04": {
+		{"end normals of a cubic from the raw derivative", "path_stroke.go", `n1 := cubicBezierNormal\(start, cp1, cp2, end, 1\.0, halfWidth\)`, "n1 := cubicBezierDeriv(start, cp1, cp2, end, 1.0).Rot90CW().Norm(halfWidth)", "E11.bezier-normal-helper"},
 		{"arcs join passes the first circle's flag form for the second circle", "path_stroke.go", `(\t\tmid = closestArcIntersection\(c1, )0\.0 <= r1(, pivot, i0, i1\))`, "${1}r1 < 0.0${2}", "E11.arc-join-direction-flags"},
 		{"last x-monotone arc piece ends at a recomputed position (reverts fix efe7f4b)", "path_util.go", `(?s)\t\tpos := end // [^\n]*\n\t\tif !angleEqual\(t, theta1\) \{\n\t\t\tpos = EllipsePos\(rx, ry, phi, cx, cy, t\)\n\t\t\}\n`, "\t\tpos := EllipsePos(rx, ry, phi, cx, cy, t)\n", "E11.split-keeps-endpoint"},
 		{"radius change of an arc declared before the segment loop", "path_stroke.go", `(?s)(\tfor i, cur := range states \{\n)(.*?)\t\t\tdr := halfWidth\n`, "\tdr := halfWidth\n$1$2", "E11.sign-flip-per-iteration"},
@@ -98,6 +100,7 @@ var Mutants = map[string][]Mutant{
 		{"closed flag also set by MoveTo", "path_stroke.go", `\t\tcase MoveToCmd:\n\t\t\tend = Point\{p\.d\[i\+1\], p\.d\[i\+2\]\}\n\t\tcase LineToCmd:\n\t\t\tend = Point\{p\.d\[i\+1\], p\.d\[i\+2\]\}\n\t\t\tn := end`, "\t\tcase MoveToCmd:\n\t\t\tend = Point{p.d[i+1], p.d[i+2]}\n\t\t\tclosed = false\n\t\tcase LineToCmd:\n\t\t\tend = Point{p.d[i+1], p.d[i+2]}\n\t\t\tn := end", "E11.cap-join"},
 	},
 	"C05": {
+		{"dash pattern reduced to a period that need not divide it", "path.go", `(?s)REPEAT:\n\tfor len\(d\)%2 == 0 \{\n\t\tmid := len\(d\) / 2\n\t\tfor i := 0; i < mid; i\+\+ \{\n\t\t\tif !Equal\(d\[i\], d\[mid\+i\]\) \{\n\t\t\t\tbreak REPEAT\n\t\t\t\}\n\t\t\}\n\t\td = d\[:mid\]\n\t\}\n`, "\tfor n := 1; n <= len(d)/2; n++ {\n\t\ti := n\n\t\tfor i < len(d) && Equal(d[i], d[i-n]) {\n\t\t\ti++\n\t\t}\n\t\tif i == len(d) {\n\t\t\td = d[:n]\n\t\t\tbreak\n\t\t}\n\t}\n", "E11.dash-reduction-divides"},
 		{"short sub-paths skip the cut loop by the element length alone", "path.go", `(\t\tlength := ps\.Length\(\)\n)(\t\tfor pos\+d\[i\]\+Epsilon < length \{)`, "${1}\t\tif length < d[i0] {\n\t\t\tif i0%2 == 0 {\n\t\t\t\tq = q.Append(ps)\n\t\t\t}\n\t\t\tcontinue\n\t\t}\n${2}", "E11.dash-cover"},
 		{"negative offset wrapped as Mod(offset+sum, sum)", "path.go", `offset = math\.Mod\(offset, dTotal\) \+ dTotal`, "offset = math.Mod(offset+dTotal, dTotal)", "E11.dash-offset-range"},
 		{"ScaleDash multiplies the caller's pattern in place", "canvas.go", `(?s)\td2 := make\(\[\]float64, len\(d\)\)\n\tfor i := range d \{\n\t\td2\[i\] = d\[i\] \* scale\n\t\}\n\treturn offset \* scale, d2\n`, "\tfor i := range d {\n\t\td[i] *= scale\n\t}\n\treturn offset * scale, d\n", "E1.dash-input-pure"},
@@ -114,6 +117,8 @@ var Mutants = map[string][]Mutant{
 		{"arc cut relative to the arc start", "path.go", `ellipseSplit\(rx, ry, phi, cx, cy, startTheta, theta2, theta\)`, `ellipseSplit(rx, ry, phi, cx, cy, theta1, theta2, theta)`, "E11.cut-carried"},
 	},
 	"C06": {
+		{"second derivative of the cubic taken at the line parameter", "path_intersection_util.go", `(if endpoint \{\n[^\n]*\n\t\t\t\t\tderiv2 := cubicBezierDeriv2\(p0, p1, p2, p3, )root\)`, "${1}s)", "E9.curve-parameter-domain"},
+		{"x-monotone arc pieces inherit the large flag", "path_util.go", `(p\.ArcTo\(rx, ry, phi\*180\.0/math\.Pi, )false(, sweep, pos\.X, pos\.Y\))`, "${1}large${2}", "E11.piece-flag-not-whole-arcs"},
 		{"second root re-mapped whenever the roots are ordered", "path_util.go", `(?s)\tsplit := false\n(.*?)\t\tsplit = true\n(.*?)\t\tif split \{\n\t\t\tt2 = \(t2 - t1\)`, "${1}${2}\t\tif t1 < t2 {\n\t\t\tt2 = (t2 - t1)", "E11.remap-iff-split"},
 		{"inflection crossing demands a vanishing second derivative (reverts fix 6b4ba7e)", "path_intersection_util.go", `if Equal\(A\.Dot\(deriv2\), 0\.0\) \{`, "if Equal(deriv2.X, 0.0) && Equal(deriv2.Y, 0.0) {", "E9.inflection-across-line"},
 		{"pending end-point hit of Crossings declared outside the sub-path loop", "path.go", `(?s)(\tboundary := false\n)(\tfor _, pi := range p\.Split\(\) \{\n\t\t// Count intersections of ray with path, see windings\n\t\tni := 0\n)\t\tvar prev \*Intersection\n`, "$1\tvar prev *Intersection\n$2", "E9.pending-per-subpath"},
@@ -178,6 +183,7 @@ var Mutants = map[string][]Mutant{
 		{"quad case reads offset 5", "path.go", `\t\tcase QuadToCmd:\n\t\t\tcp := Point\{p\.d\[i\+1\], p\.d\[i\+2\]\}\n\t\t\tend = Point\{p\.d\[i\+3\], p\.d\[i\+4\]\}\n\t\t\txmin = math\.Min\(xmin, math\.Min\(cp\.X, end\.X\)\)`, "\t\tcase QuadToCmd:\n\t\t\tcp := Point{p.d[i+1], p.d[i+2]}\n\t\t\tend = Point{p.d[i+5], p.d[i+6]}\n\t\t\txmin = math.Min(xmin, math.Min(cp.X, end.X))", "E2.layout"},
 	},
 	"C10": {
+		{"position of the rest not clamped after the join (reverts fix ff037ad)", "path.go", `(?s)(\t\t\tp = p\.Join\(r\) // join the rest of the base path\n)\t\t\tif len\(p\.d\) < i \{\n[^\n]*\n\t\t\t\ti = len\(p\.d\)\n\t\t\t\}\n`, "$1", "E11.cursor-revalidated-after-join"},
 		{"Reverse probes the leading command of the previous record", "path.go", `if closed && \(i == 0 \|\| p\.d\[i-1\] == MoveToCmd\) \{`, "if closed && (i == 0 || p.d[i-cmdLen(MoveToCmd)] == MoveToCmd) {", "E2.layout"},
 		{"CubeTo tests the first control point in the clause of the second", "path.go", `(angleEqual\(end\.Sub\(start\)\.AngleBetween\(cp2\.Sub\(start\)\), 0\.0\) && angleEqual\(end\.Sub\(start\)\.AngleBetween\(end\.Sub\()cp2(\)\), 0\.0\)\))`, "${1}cp1${2}", "E11.control-point-clauses-symmetric"},
 		{"RoundedRectangle clamps the radius before taking its sign off", "shapes.go", `(?s)(\tsweep := true\n\tif r < 0\.0 \{\n\t\tsweep = false\n\t\tr = -r\n\t\}\n)(\tr = math\.Min\(r, w/2\.0\)\n\tr = math\.Min\(r, h/2\.0\)\n)(\n\tp := &Path\{\}\n\tp\.MoveTo\(0\.0, r\)\n\tp\.ArcTo)`, "$2$1$3", "E11.clamp-after-sign"},
@@ -194,6 +200,7 @@ var Mutants = map[string][]Mutant{
 		{"Close retags one end only", "path.go", `\t\tp\.d\[len\(p\.d\)-1\] = CloseCmd\n\t\tp\.d\[len\(p\.d\)-cmdLen\(LineToCmd\)\] = CloseCmd\n`, "\t\tp.d[len(p.d)-1] = CloseCmd\n", "E2.retag"},
 	},
 	"C11": {
+		{"decimal formatter tests the signed value against 1", "util.go", `if a := math\.Abs\(float64\(f\)\); 1\.0 <= a && !math\.IsInf\(a, 0\) \{`, "if a := float64(f); 1.0 <= a && !math.IsInf(a, 1) {", "E11.magnitude-test-on-abs"},
 		{"S reflects when the stored last command is a cubic", "path.go", `if prevCmd == 'C' \|\| prevCmd == 'c' \|\| prevCmd == 'S' \|\| prevCmd == 's' \{`, "if 0 < len(p.d) && p.d[len(p.d)-1] == CubeToCmd {", "E11.svg-smooth"},
 		{"Join hands the stored rotation (radians) to ArcTo (degrees)", "path.go", `p\.ArcTo\(d\[1\], d\[2\], d\[3\]\*180\.0/math\.Pi, large, sweep, d\[5\], d\[6\]\)`, "p.ArcTo(d[1], d[2], d[3], large, sweep, d[5], d[6])", "E8.units"},
 		{"ToSVG drops a MoveTo to the current pen position", "path.go", `(?s)(func \(p \*Path\) ToSVG\(\) string \{.*?\t\tcase MoveToCmd:\n)`, "${1}\t\t\tif 0 < i && Equal(x, p.d[i+1]) && Equal(y, p.d[i+2]) {\n\t\t\t\tbreak\n\t\t\t}\n", "E2.serialise-every-command"},
@@ -239,6 +246,7 @@ var Mutants = map[string][]Mutant{
 		{"PS eofill outside its guard", "renderers/ps/ps.go", `r\.w\.Write\(\[\]byte\(" fill"\)\)\n\t\t\}\n\t\tif style\.HasStroke\(\) && !strokeUnsupported \{\n\t\t\tr\.w\.Write\(\[\]byte\(" grestore"\)\)`, "r.w.Write([]byte(\" eofill\"))\n\t\t}\n\t\tif style.HasStroke() && !strokeUnsupported {\n\t\t\tr.w.Write([]byte(\" grestore\"))", "E6.enum"},
 	},
 	"C13": {
+		{"DeviceGray declared for every grey colour model", "renderers/pdf/writer.go", `if _, ok := img\.\(\*image\.Gray\); ok \{`, "if m := img.ColorModel(); m == color.GrayModel || m == color.Gray16Model {", "E5.jpeg-colorspace"},
 		{"gradients with fewer than two stops get an empty function dictionary (reverts fix 1e751a6)", "renderers/pdf/writer.go", `(?s)\tif len\(stops\) == 0 \{\n[^\n]*\n\t\treturn patternStopFunction\(canvas\.Stop\{\}, canvas\.Stop\{\}\)\n\t\} else if len\(stops\) == 1 \{\n\t\treturn patternStopFunction\(stops\[0\], stops\[0\]\)\n\t\}\n`, "\tif len(stops) < 2 {\n\t\treturn pdfDict{}\n\t}\n", "E5.function-dict-never-empty"},
 		{"gradient boundary appended before the function under a length guard", "renderers/pdf/writer.go", `(?s)\t\tfs = append\(fs, patternStopFunction\(stops\[i\], stops\[i\+1\]\)\)\n\t\tencode = append\(encode, 0, 1\)\n\t\tif i != 0 \{\n\t\t\tbounds = append\(bounds, stops\[i\]\.Offset\)\n\t\t\}\n`, "\t\tif 0 < len(fs) {\n\t\t\tbounds = append(bounds, stops[i].Offset)\n\t\t}\n\t\tfs = append(fs, patternStopFunction(stops[i], stops[i+1]))\n\t\tencode = append(encode, 0, 1)\n", "E5.stitching-arity"},
 		{"name escaping forgets the number sign", "renderers/pdf/writer.go", ` \|\| c == '#' \|\| strings\.IndexByte`, " || strings.IndexByte", "E5.name-escape"},
@@ -308,6 +316,7 @@ var Mutants = map[string][]Mutant{
 		{"setter writes the stack", "canvas.go", `func \(c \*Context\) SetStrokeWidth\(width float64\) \{\n`, "func (c *Context) SetStrokeWidth(width float64) {\n\tc.stack = nil\n", "E11.ctx-setter"},
 	},
 	"C16": {
+		{"item boundary only where text and object placeholder meet", "text/text.go", `objectReplacementBoundary := r == unicode\.ReplacementChar \|\| 0 < j && runes\[j-1\] == unicode\.ReplacementChar`, "objectReplacementBoundary := 0 < j && (r == unicode.ReplacementChar) != (runes[j-1] == unicode.ReplacementChar)", "E11.object-own-item"},
 		{"vertical justify step multiplied by the line index", "text.go", `(?s)\t\tdy := 0\.0\n\t\tfor j := range t\.lines \{\n\t\t\tt\.lines\[j\]\.y \+= dy\n\t\t\tdy \+= ddy\n\t\t\}`, "\t\tfor j := range t.lines {\n\t\t\tt.lines[j].y += float64(j) * ddy\n\t\t}", "E4.unbounded-quotient-not-multiplied"},
 		{"unwrapped lines count the white space after a break (reverts fix 6632432)", "text.go", `if !lineStart \|\| item\.Type != text\.GlueType \{`, "if lineStart || !lineStart {", "E11.nowrap-width-skips-leading-glue"},
 		{"indent dropped from the items when the text starts with white space", "text/linebreak.go", `(?s)\titems = append\(items, Box\(indent\)\)\n\tif padStart\.Size != 0 \{\n\t\titems\[0\]\.Width \+= padStart\.Width\n\t\titems\[0\]\.Size \+= padStart\.Size\n\t\titems = append\(items, Penalty\(0, 0, false\)\)\n\t\}`, "\tif padStart.Size != 0 {\n\t\titems = append(items, padStart, Penalty(0, 0, false))\n\t} else {\n\t\titems = append(items, Box(indent))\n\t}", "E11.indent-on-every-path"},
